@@ -418,14 +418,21 @@ def run_two(acc, cp, hist):
     acc.transitions += len(hist)
     case = {"kind": "two", "events": [[w, list(e[:3]) + ([e[3]] if len(e) > 3 else [])] for w, e in hist]}
     try:
-        profs = {"A": cp.C2Profile(), "B": cp.C2Profile.from_text('set sample_name "B";')}
-        per = {"A": [], "B": [("opt", "sample_name", "B")]}
+        # both profiles are parsed from the very same text (and a third one later): they are still independent objects
+        src = 'set sample_name "S";'
+        profs = {"A": cp.C2Profile.from_text(src), "B": cp.C2Profile.from_text(src)}
+        per = {"A": [("opt", "sample_name", "S")], "B": [("opt", "sample_name", "S")]}
         for who, ev in hist:
             apply_event(cp, profs[who], ev)
             if ev[0] != "read":
                 per[who].append(ev)
         final = {w: copy.deepcopy(profs[w].as_dict()) for w in ("A", "B")}
         again = {w: copy.deepcopy(profs[w].as_dict()) for w in ("B", "A")}
+        third = copy.deepcopy(cp.C2Profile.from_text(src).as_dict())
+        if third != {"sample_name": ["S"]}:
+            acc.case(repr(hist), outcome="third")
+            acc.fail("C11/two-profiles/fresh-parse-reports-other-profiles-modifications", case, {"sample_name": ["S"]}, repr(third)[:300])
+            return
     except Exception as e:  # noqa
         acc.case(repr(hist), outcome="exc")
         acc.fail("C11/two-profiles/exception", case, "no exception", f"{type(e).__name__}: {str(e)[:200]}")
